@@ -27,7 +27,14 @@ Definition parse_catches_ok : bool :=
 (* SocketDriver._read logs and skips a line the parser rejects (repair of C07.F4) *)
 Definition parse_guard_ok : bool := caught gen.T07.LOOP_GUARD_PARSE (XE MalformedIrcMsg).
 
+(* every log call in a handler on the read path has a constant template with enough arguments: server-controlled
+   text only ever sits in ARGUMENT position, so utils.str.format cannot raise inside a handler *)
+Definition entry_safe (e : log_entry) : bool :=
+  let '(_, (c, (nd, na))) := e in c && N.leb nd na.
+Definition handler_logs_ok : bool := forallb entry_safe gen.T07.HANDLER_LOGS.
+
 Definition tables_ok : bool :=
+  handler_logs_ok &&
   parse_catches_ok && parse_guard_ok &&
   (* Irc.takeMsg is firewalled and its _truncateMsg encodes the message: an unencodable one is logged and dropped
      there, so that data.encode() in _sendIfMsgs (outside every try) only ever sees encodable text *)
@@ -47,6 +54,8 @@ Proof. vm_compute. reflexivity. Qed.
 Lemma T_catches : parse_catches_ok = true.
 Proof. vm_compute. reflexivity. Qed.
 Lemma T_guard : parse_guard_ok = true.
+Proof. vm_compute. reflexivity. Qed.
+Lemma T_logs : handler_logs_ok = true.
 Proof. vm_compute. reflexivity. Qed.
 Lemma T_take : fw_irc s_takeMsg = true.
 Proof. vm_compute. reflexivity. Qed.
@@ -68,10 +77,35 @@ Lemma T_nick : forallb (fun s => Nat.eqb (length s) 3) gen.T07.NICK_SETTERS = tr
 Proof. vm_compute. reflexivity. Qed.
 
 (* generic consequences *)
-Lemma through_try_all cs y : swallows_all cs = true -> through_try cs y = None.
+Lemma entries_safe site : forallb entry_safe (site_entries site) = true.
 Proof.
-  intro H. destruct y as [e|]; [|reflexivity]. cbn [through_try].
-  unfold swallows_all in H. rewrite forallb_forall in H. rewrite (H e (all_xc_complete e)). reflexivity.
+  pose proof T_logs as H. unfold handler_logs_ok in H. rewrite forallb_forall in H.
+  apply forallb_forall. intros e He. apply H. unfold site_entries in He. apply filter_In in He. tauto.
+Qed.
+
+(* no handler on the read path raises *)
+Lemma site_quiet site : site_raises site = false.
+Proof.
+  unfold site_raises. pose proof (entries_safe site) as H.
+  induction (site_entries site) as [|e l IH]; [reflexivity|].
+  cbn [forallb existsb] in *. apply andb_true_iff in H as [He Hl]. rewrite (IH Hl), orb_false_r.
+  destruct e as [s [c [nd na]]]. cbn in *. apply andb_true_iff in He as [Hc Hn]. rewrite Hc. cbn.
+  apply N.ltb_ge. apply N.leb_le. exact Hn.
+Qed.
+
+Lemma guard_quiet line : guard_log_raises line = false.
+Proof.
+  unfold guard_log_raises. pose proof (entries_safe 0) as H.
+  induction (site_entries 0) as [|e l IH]; [reflexivity|].
+  cbn [forallb existsb] in *. apply andb_true_iff in H as [He Hl]. rewrite (IH Hl), orb_false_r.
+  destruct e as [s [c [nd na]]]. cbn in *. apply andb_true_iff in He as [Hc Hn]. rewrite Hc.
+  apply N.ltb_ge. apply N.leb_le. exact Hn.
+Qed.
+
+Lemma through_try_all site cs y : swallows_all cs = true -> through_try_at site cs y = None.
+Proof.
+  intro H. destruct y as [e|]; [|reflexivity]. cbn [through_try_at].
+  unfold swallows_all in H. rewrite forallb_forall in H. rewrite (H e (all_xc_complete e)), site_quiet. reflexivity.
 Qed.
 
 Lemma fw_catches_nonbase x : fw_total = true -> is_base x = false -> caught gen.T07.FIREWALL_CATCHES x = true.
@@ -84,8 +118,8 @@ Definition exc_ok (y : option xc) : Prop := y <> Some XBase.
 
 Lemma through_fw_ok y : exc_ok y -> through_fw true y = None.
 Proof.
-  intro H. destruct y as [e|]; [|reflexivity]. cbn [through_fw through_try].
-  rewrite fw_catches_nonbase; [reflexivity|exact T_fw|].
+  intro H. destruct y as [e|]; [|reflexivity]. cbn [through_fw through_try_at].
+  rewrite fw_catches_nonbase; [rewrite site_quiet; reflexivity|exact T_fw|].
   destruct e; try reflexivity. exfalso. apply H. reflexivity.
 Qed.
 
@@ -220,9 +254,9 @@ Lemma feed_lines_none ls : dispatch_ok -> forall p, snd (feed_lines ls p) = None
 Proof.
   intro Hd. induction ls as [|l ls IH]; intros p; [reflexivity|].
   cbn [Model.feed_lines].
-  destruct (parse_msg vt (decode l)) as [[m|]|e] eqn:E; [| apply IH | rewrite (parse_msg_guarded vt _ e E); apply IH].
+  destruct (parse_msg vt (decode l)) as [[m|]|e] eqn:E; [| apply IH | rewrite (parse_msg_guarded vt _ e E), guard_quiet; apply IH].
   pose proof (feed_msg_none (strip gen.T07.PY_WS (decode l)) m p Hd) as Hf.
-  destruct (feed_msg _ m p) as [p' x]. cbn [snd] in Hf. subst x. cbn [through_try]. apply IH.
+  destruct (feed_msg _ m p) as [p' x]. cbn [snd] in Hf. subst x. cbn [through_try_at]. apply IH.
 Qed.
 
 Lemma run_outfilters_none a l : Forall (fun c => forall a s, exc_ok (h_exc (cb_out c a s))) l ->
@@ -346,14 +380,14 @@ Lemma run_infilters_qb n m l : forall p, qb (fst (fst (fst (run_infilters n m l 
 Proof.
   induction l as [|c l IH]; intro p; cbn [Model.run_infilters]; [reflexivity|].
   destruct (cb_in c n m (snd p)) as [r keep]. destruct (h_exc r) as [e|].
-  - destruct (through_try _ _); [cbn [fst]; apply qb_reconn|]. rewrite IH. cbn [fst]. apply qb_reconn.
+  - destruct (through_try_at _ _ _); [cbn [fst]; apply qb_reconn|]. rewrite IH. cbn [fst]. apply qb_reconn.
   - destruct keep; [rewrite IH|]; cbn [fst]; apply qb_reconn.
 Qed.
 
 Lemma run_calls_qb n m l : forall p, qb (fst (fst (run_calls n m l p))) = qb (fst p).
 Proof.
   induction l as [|c l IH]; intro p; cbn [Model.run_calls]; [reflexivity|].
-  destruct (through_try _ _); [cbn [fst]; apply qb_reconn|]. rewrite IH. cbn [fst]. apply qb_reconn.
+  destruct (through_try_at _ _ _); [cbn [fst]; apply qb_reconn|]. rewrite IH. cbn [fst]. apply qb_reconn.
 Qed.
 
 Lemma run_outfilters_qb a l : forall p, qb (fst (fst (run_outfilters a l p))) = qb (fst p).
@@ -366,7 +400,7 @@ Qed.
 Lemma feed_rest_qb n m d s :
   qb (fst (fst (let r := addmsg n m s in
             let p2 := (apply_reconn (h_reconn r) d, h_st r) in
-            match through_try gen.T07.FEED_ADDMSG_CATCHES (through_fw (fw_state s_addMsg) (h_exc r)) with
+            match through_try_at 3 gen.T07.FEED_ADDMSG_CATCHES (through_fw (fw_state s_addMsg) (h_exc r)) with
             | Some e => (p2, Some e)
             | None =>
                 match run_infilters n m cbs p2 with
@@ -376,7 +410,7 @@ Lemma feed_rest_qb n m d s :
                 end
             end))) = qb d.
 Proof.
-  cbn zeta. destruct (through_try _ _); [cbn [fst]; apply qb_reconn|].
+  cbn zeta. destruct (through_try_at _ _ _); [cbn [fst]; apply qb_reconn|].
   pose proof (run_infilters_qb n m cbs (apply_reconn (h_reconn (addmsg n m s)) d, h_st (addmsg n m s))) as H1.
   destruct (run_infilters n m cbs _) as [[p3 x] go]. cbn [fst] in H1. rewrite qb_reconn in H1.
   destruct x; [exact H1|]. destruct go; [|exact H1]. rewrite run_calls_qb. exact H1.
@@ -412,10 +446,10 @@ Proof.
   induction ls as [|l ls IH]; intros p Hall Hp; [exact Hp|].
   cbn [forallb] in Hall. apply andb_true_iff in Hall as [Hl Hall].
   cbn [Model.feed_lines]. unfold Model.line_ok in Hl.
-  destruct (parse_msg vt (decode l)) as [[m|]|e]; [| apply IH; assumption | rewrite Hl; apply IH; assumption].
+  destruct (parse_msg vt (decode l)) as [[m|]|e]; [| apply IH; assumption | apply andb_true_iff in Hl as [Hl1 Hl2]; rewrite Hl1, guard_quiet; apply IH; assumption].
   pose proof (feed_msg_enc (strip gen.T07.PY_WS (decode l)) m p Hl Hp) as Hf.
   destruct (feed_msg _ m p) as [p' x]. cbn [fst] in Hf.
-  destruct (through_try _ x); [exact Hf|]. apply IH; assumption.
+  destruct (through_try_at _ _ x); [exact Hf|]. apply IH; assumption.
 Qed.
 
 (* the clean-echo domain (used by the PING theorem): every echoed payload is encodable *)
